@@ -1384,3 +1384,66 @@ Proof.
   simpl. apply IH, sstep_keys_ok, Hs.
 Qed.
 Print Assumptions dels_key_ok_reachable.
+
+(* ================================================================== 8. the positivity hypothesis *)
+Lemma block_starts_boundary bs : ∀ s sf upss,
+  boundary_ok s → run_blocks s bs = Some (sf, upss) → Forall boundary_ok (block_starts s bs).
+Proof.
+  induction bs as [|b r IH]; intros s sf upss Hb; cbn [run_blocks block_starts]; [constructor|].
+  destruct (do_block s b.1 b.2) as [[s' u]|] eqn:Ed; [|discriminate].
+  destruct (run_blocks s' r) as [[sf' us']|] eqn:Er; [|discriminate]. intros _.
+  destruct (do_block_srun _ _ _ _ _ Ed) as [-> _].
+  destruct (do_block_inv _ _ _ _ _ Hb Ed) as (Hb' & _).
+  constructor; [exact Hb | eapply IH; eassumption].
+Qed.
+
+(* C10_history under the hypotheses in the form the other invariants deliver them: at the start of
+   every block the minimum validator stake is worth at least one unit of power (true of
+   [params_ok] parameter sets) and the committed delegatees satisfy 0 <= self <= total (C11) *)
+Corollary C10_history_totals g bs sf upss :
+  run_blocks (init_chain g) bs = Some (sf, upss) →
+  Forall (λ s, 1 ≤ min_power (gparams s) ∧ totals_ok (base_of s)) (block_starts (init_chain g) bs) →
+  lastvals sf = announced sf ∧
+  ValSet.tm_run [] upss = Some (sort_addr (lastvals sf)) ∧
+  fold_left ValSet.apply_updates upss [] = sort_addr (lastvals sf).
+Proof.
+  intros Hr Hh.
+  pose proof (block_starts_boundary bs _ _ _ (init_chain_boundary g) Hr) as Hb.
+  assert (Hp : Forall sel_positive (block_starts (init_chain g) bs)).
+  { rewrite Forall_forall in Hh, Hb |- *. intros s Hs. destruct (Hh s Hs) as [H1 H2].
+    apply sel_positive_of_totals; auto. }
+  destruct (C10_history g bs sf upss Hr Hp) as (_ & _ & H1 & H2 & H3). auto.
+Qed.
+Print Assumptions C10_history_totals.
+
+(* REFUTATION of well-formedness without [sel_positive]: with a minimum validator stake below one
+   unit of power (here 0) a delegatee whose stakes were all slashed away (stakes that would lose
+   less than one unit are removed, the emptied delegatee stays in the ledger with total power 0)
+   is still "eligible"; EndBlock announces it with power 0, which the consensus engine reads as the
+   removal of a validator it does not have, and rejects. *)
+Definition zp_params : params := {|
+  g_version := 1; g_maxValidatorCnt := 5; g_minValidatorStake := 0; g_minDelegatorStake := 0;
+  g_rewardPerPower := 0; g_lazyRewardBlocks := 2; g_lazyApplyingBlocks := 1; g_gasPrice := 1; g_minTrxGas := 1;
+  g_maxTrxGas := 1000; g_maxBlockGas := 100000; g_minVotingPeriodBlocks := 1; g_maxVotingPeriodBlocks := 10;
+  g_minSelfStakeRatio := 0; g_maxUpdatableStakeRatio := 100; g_maxIndividualStakeRatio := 100; g_slashRatio := 50;
+  g_signedBlocksWindow := 100; g_minSignedBlocks := 1 |}.
+Definition zp_genesis : genesis :=
+  {| gen_params := zp_params; gen_holders := []; gen_validators := [(1%N, 1); (2%N, 20)] |}.
+(* block 1 carries evidence against validator 1 *)
+Definition zp_blocks : blocks :=
+  [({| h_height := 1; h_proposer := None; h_votes := []; h_evidence := [1%N] |}, []); (ex_hd 2, [])].
+
+Theorem C10_zero_power_refuted :
+  ∃ g bs sf upss,
+    run_blocks (init_chain g) bs = Some (sf, upss) ∧
+    upss = [[]; [(1%N, 0); (2%N, 20)]] ∧
+    lastvals sf = [(2%N, 20); (1%N, 0)] ∧
+    ValSet.tm_run [] upss = None ∧
+    fold_left ValSet.apply_updates upss [] ≠ sort_addr (lastvals sf).
+Proof.
+  exists zp_genesis, zp_blocks, (run_state (init_chain zp_genesis) zp_blocks), (run_updates (init_chain zp_genesis) zp_blocks).
+  split; [apply run_blocks_proj; vm_compute; reflexivity|].
+  split; [vm_compute; reflexivity|]. split; [vm_compute; reflexivity|]. split; [vm_compute; reflexivity|].
+  vm_compute. discriminate.
+Qed.
+Print Assumptions C10_zero_power_refuted.
